@@ -116,6 +116,7 @@ props["C06"] = {
         run("root", "VxC06Compact", {"K": 2, "C": 2, "DST": 2}, {"K": 2, "C": 3, "DST": 2}, note="level 1 -> level 2, multi-TXID inputs"),
         run("root", "VxC08Latest", {"N": 3, "M": 5}, {"N": 4, "M": 6}, note="whichever mix of levels a replica holds, the plan for the latest state is a valid chain and is found when one exists (shared with C08)"),
         run("root", "VxC06CacheRace", {}, {}, note="the newest-file cache when a compaction finishes while another monitor's listing is in flight (possible only if the cache is not locked during the listing)"),
+        run("root", "VxC06LevelEnd", {"K": 3}, {"K": 4}, note="the newest file of a level as the DB caches it, while the listing that fills the cache may break off part-way: an end is taken only from a complete listing"),
         run("root", "VxC06DBCompact", {"N": 3}, {"N": 4}, note="DB.Compact(1) with the DB's own compactor wiring and a local directory that is a suffix of / one ahead of the replica, followed by level-0 retention"),
         run("root", "VxC02Snapshot", {}, {}, note="level-9 snapshots (DB.Snapshot's page source): size and every page equal the state at the advertised position, also after a shrink (shared with C02)"),
     ],
@@ -334,12 +335,13 @@ props["C11"] = {
         run("root", "VxC11Sidecar", {}, {}),
         run("root", "VxC11Baseline", {}, {}),
         run("file", "VxC11FileWrite", {}, {}),
+        run("file", "VxC03FileWriteStream", {}, {}, note="success means the whole stream was published, also when the context ends mid-stream (shared with C03)"),
         run("file", "VxC11Retention", {}, {}),
         run("root", "VxC10Restore", {}, {}, note="restore output: renamed only after flush and close (shared with C10)"),
         run("root", "VxC11SyncResetSync", {}, {}, note="sync, run-time reset of the local state, sync: the directory that exists now is the one flushed"),
         run("root", "VxC11RestoreFollow", {}, {}, note="follow-mode restore: database flushed before it is renamed, sidecar published after"),
     ],
-    "unreached_ok": ["existing-output-refused-and-untouched", "damaged-replica-is-an-error", "damaged-replica-leaves-no-output", "success-means-correct-database", "temp-file-gone", "integrity-check-ran", "output-on-error-is-complete"],
+    "unreached_ok": ["existing-output-refused-and-untouched", "damaged-replica-is-an-error", "damaged-replica-leaves-no-output", "success-means-correct-database", "temp-file-gone", "integrity-check-ran", "output-on-error-is-complete", "refused-stream-leaves-no-temp-file"],
     "assumptions": [
         "POSIX model: a file's content is durable after fsync on a descriptor of that file; a directory entry (rename, create, unlink) is durable after fsync on the directory; rename is atomic",
         "ghost state: a write or truncate makes a file dirty until its next fsync; rename/create/unlink make the directory dirty until the directory's next fsync; the rules checked are: never rename a dirty or still-open file into a final name, never return success while the directory of a published name is dirty, never unlink a superseded file while a publish is not yet durable",
@@ -356,9 +358,11 @@ props["C03"] = {
         run("root", "VxC03Sidecar", {}, {}),
         run("root", "VxC03Baseline", {}, {}, note="baseline fetch (checkDatabaseBehindReplica) killed at every file-system operation, then restarted"),
         run("file", "VxC03FileWrite", {}, {}),
+        run("file", "VxC03FileWriteStream", {}, {}, note="the file backend fed piece by piece while its context ends at any point of the stream: a final name only ever holds the whole stream"),
+        run("root", "VxC05Compact", {"K": 2}, {"K": 3}, note="a compaction whose source breaks mid-stream or whose upload fails: nothing partial is visible under a final name (shared with C05)"),
         run("root", "VxC16Follow", {}, {}, note="follower killed at every file-system operation (shared with C16)"),
     ],
-    "unreached_ok": ["sidecar-always-parses", "sidecar-complete-file", "sidecar-never-ahead-of-database", "sidecar-never-regresses", "follow-returns-nil-on-cancel", "caught-up", "no-temp-left", "resume-connects-to-sidecar", "resume-converges"],
+    "unreached_ok": ["sidecar-always-parses", "sidecar-complete-file", "sidecar-never-ahead-of-database", "sidecar-never-regresses", "follow-returns-nil-on-cancel", "caught-up", "no-temp-left", "resume-connects-to-sidecar", "resume-converges", "refused-stream-leaves-no-temp-file"],
     "assumptions": [
         "a process kill stops the process immediately before a file-system mutating operation (create, write, truncate, rename, unlink, mkdir, chtimes); data already written stays (no power loss: that is C11); nothing else of the process survives",
         "ghost 'complete': a file is complete when every handle that wrote it has been closed after its last write",
